@@ -262,20 +262,55 @@ def run(p, led, tier):
 
 
 def _key_provenance(k):
-    """None if k is hashlib.<algo>(user_prompt.encode(...)).hexdigest()[:n] (the request itself, hashed); else why not"""
+    """None if the key determines the prompt: the prompt itself, a hashlib digest of a text that determines it, or a text
+    that embeds such a thing once, unmodified, beside literals and configuration (gate logic, namespace prefix); else why not"""
     import re
+    if isinstance(k, tuple) and any(isinstance(x, Unknown) for x in k):
+        # a composite key: one component must determine the prompt, the others may be configuration
+        whys = [_key_provenance(x) for x in k if isinstance(x, Unknown)]
+        return None if any(w is None for w in whys) else whys[0]
     if not isinstance(k, Unknown):
         return "is a constant: every request shares it"
+    FOREIGN = ("payload_", "confidence_", "clock", "failure_", "cache_")
+
+    def determines(s, depth=0):
+        if depth > 4:
+            return False
+        if s == "user_prompt" or re.fullmatch(r"user_prompt\.encode\([^()]*\)", s):
+            return True
+        m = re.fullmatch(r"hashlib\.\w+\((?P<x>.*)\.encode\([^()]*\)\)\.(hexdigest|digest)\(\)(\[\d*:\d*\])?", s, re.DOTALL)
+        if m:
+            return determines(m.group("x"), depth + 1)
+        if s.startswith("f⟨") and s.endswith("⟩"):
+            body = s[2:-1]
+            # literal text and {placeholders} (brace matching)
+            parts, lit, d_, cur = [], "", 0, ""
+            for ch in body:
+                if ch == "{":
+                    if d_ == 0:
+                        parts.append(("lit", lit))
+                        lit, cur = "", ""
+                    else:
+                        cur += ch
+                    d_ += 1
+                elif ch == "}" and d_ > 0:
+                    d_ -= 1
+                    if d_ == 0:
+                        parts.append(("ph", cur))
+                    else:
+                        cur += ch
+                elif d_ > 0:
+                    cur += ch
+                else:
+                    lit += ch
+            parts.append(("lit", lit))
+            with_prompt = [x for kind, x in parts if kind == "ph" and "user_prompt" in x]
+            others = "".join(x for kind, x in parts if not (kind == "ph" and "user_prompt" in x))
+            if len(with_prompt) == 1 and "user_prompt" not in others and not any(w in others for w in FOREIGN):
+                return determines(with_prompt[0], depth + 1)
+        return False
     s = k.sym
-    if s in ("user_prompt", "user_prompt.encode()"):
-        return None
-    m = re.fullmatch(r"hashlib\.\w+\(user_prompt\.encode\([^()]*\)\)\.(hexdigest|digest)\(\)(\[\d*:\d*\])?", s)
-    if m:
-        return None
-    # the whole prompt embedded once, unmodified, in a text that otherwise consists of literals and configuration (the
-    # gate logic, a namespace prefix …): different prompts still give different texts
-    m = re.fullmatch(r"hashlib\.\w+\(f⟨(?P<pre>[^⟩]*?)\{user_prompt\}(?P<post>[^⟩]*)⟩\.encode\([^()]*\)\)\.(hexdigest|digest)\(\)(\[\d*:\d*\])?", s, re.DOTALL)
-    if m and "user_prompt" not in m.group("pre") + m.group("post") and not any(w in m.group("pre") + m.group("post") for w in ("payload_", "confidence_", "clock", "failure_", "cache_")):
+    if determines(s):
         return None
     if "user_prompt" not in s:
         return "does not derive from the prompt"
